@@ -190,6 +190,12 @@ impl File {
         let mut test_signal_names: HashSet<String> = HashSet::new();
         let mut bidirectional: HashSet<String> = HashSet::new();
         for test_case in &test_cases {
+            // A test may have columns for the virtual signals it declares itself
+            let declared = test_case
+                .source
+                .parse::<crate::ParsedTestCase>()
+                .map(|parsed| parsed.declared_names())
+                .unwrap_or_default();
             for name in HeaderParser::new(&test_case.source)
                 .parse()
                 .map(|(signals, _)| signals)
@@ -206,6 +212,7 @@ impl File {
                     {
                         bidirectional.insert(stripped_name.to_string());
                     }
+                    _ if declared.contains(&name) => {}
                     _ => {
                         test_signal_names.insert(name);
                     }
